@@ -100,6 +100,9 @@ func realHist(h histCase) []string {
 			setColorOutput(old)
 			colorOutMu.Unlock()
 			res = append(res, "e="+classify(err))
+		case "V":
+			err := gtree.VerifyFromRoot(get(p[1]), gtree.WithTargetDir("/nonexistent-verif-target"))
+			res = append(res, "e="+errClass(classify(err)))
 		case "J":
 			var b bytes.Buffer
 			err := gtree.OutputFromRoot(&b, get(p[1]), gtree.WithEncodeJSON())
@@ -178,7 +181,7 @@ func runC13(ctx *Ctx) *Report {
 	}
 	names := []string{"a", "b", "c", "x/y"}
 	for k := 0; k < nr; k++ {
-		h := histCase{Kind: "hist", Fmt: allFormats()[k%5]}
+		h := histCase{Kind: "hist", Fmt: allFormats()[k%len(allFormats())]}
 		n := 0
 		for j := 0; j < 10+ctx.Rng.Intn(60); j++ {
 			switch r := ctx.Rng.Intn(10); {
@@ -192,6 +195,8 @@ func runC13(ctx *Ctx) *Report {
 				h.Ops = append(h.Ops, "O:"+fmtInt(ctx.Rng.Intn(n)))
 			case r == 8 && j%2 == 0:
 				h.Ops = append(h.Ops, "D:"+fmtInt(ctx.Rng.Intn(n)))
+			case r == 8 && j%3 == 0:
+				h.Ops = append(h.Ops, "V:"+fmtInt(ctx.Rng.Intn(n)))
 			case r == 8:
 				h.Ops = append(h.Ops, "W:"+fmtInt(ctx.Rng.Intn(n)))
 			default:
@@ -206,7 +211,7 @@ func runC13(ctx *Ctx) *Report {
 		b, _ := json.Marshal(h)
 		nOps := 0
 		for _, op := range h.Ops {
-			if op[0] == 'O' || op[0] == 'W' || op[0] == 'J' || op[0] == 'D' {
+			if op[0] == 'O' || op[0] == 'W' || op[0] == 'J' || op[0] == 'D' || op[0] == 'V' {
 				nOps++
 			}
 		}
